@@ -174,6 +174,15 @@ def run(ctx) -> None:
                       f"`{unparse(c)}`: `{unparse(arg)}` derives from the call's keyword values ({', '.join(sorted(sources))}); "
                       f"a quote character in a message/tag/path changes the argument vector (format-then-split)",
                       loc=fn.loc(c), witness={"message": "it's a bump", "effect": "ValueError: No closing quotation / injected arguments"})
+        # ... nor any other tokeniser: `<template>.format(**values).split()` splits a value that contains white space
+        for c in walk_no_nested(fn.node):
+            if isinstance(c, ast.Call) and isinstance(c.func, ast.Attribute) and c.func.attr in ("split", "rsplit", "splitlines", "partition") and unparse(c.func) != "shlex.split":
+                recv_bad = shapes.expr_tainted(c.func.value, tainted, {"shlex.quote"}) or (unparse(c.func.value) == "re" and any(shapes.expr_tainted(a_, tainted, {"shlex.quote"}) for a_ in c.args[1:]))
+                if recv_bad and has_proc:
+                    ctx.bad("R1", f"{fn.fq}: substituted values are re-tokenised by str.split",
+                            f"`{unparse(c)[:90]}`: the text that is split already contains the substituted message/tag/path; a value with white space in it "
+                            f"(a version such as `rel 1.2.4` used as tag name, a path with a blank) becomes several arguments", loc=fn.loc(c),
+                            witness={"tag": "rel 1.2.4", "command": "hg tag {tag}"}, what=f"{fn.fq}: no substituted value is split into tokens")
         for s in effects.sites[fn.fq]:
             if not (s.effect == "PROC" or s.detail.get("direct")):
                 continue
